@@ -110,6 +110,9 @@ func Load(dir string) (*Ctx, error) {
 			packages.NeedTypes | packages.NeedTypesInfo | packages.NeedTypesSizes | packages.NeedImports | packages.NeedModule,
 		Dir:   dir,
 		Tests: false,
+		// -trimpath keeps the directory out of the build cache keys, so scratch copies of the
+		// module (mutants) reuse the export data of every package they did not change.
+		BuildFlags: []string{"-trimpath"},
 		Env: append(os.Environ(), "GOFLAGS=-mod=mod", "GOPROXY=off", "GOSUMDB=off", "GOTOOLCHAIN=local",
 			"GOWORK=off"),
 	}
